@@ -102,7 +102,7 @@ def correspondence(ctx):
                      "Eval vm_compute in failing (fun c => match c with (p, t, b) => tbl_eqb_on (map fst t) (ainfer p) t end) cases.\n"
                      "Eval vm_compute in failing (fun c => match c with (p, t, b) => wf_prog (tfun t) p end) cases.\n"
                      "Eval vm_compute in failing (fun c => match c with (p, t, b) => weave_ok b p end) cases.\n"
-                     "Eval vm_compute in failing (fun c => match c with (p, t, b) => sty_prog p && ainfer_certified p end) cases.\n")
+                     "Eval vm_compute in failing (fun c => match c with (p, t, b) => cert_side p && ainfer_certified p end) cases.\n")
     res = vlib.coq_eval_many("c07l1_", texts, timeout=900)
     for sh, (ok, out) in zip(shards, res):
         lists = vlib.parse_all_eval_lists(out)
@@ -110,7 +110,7 @@ def correspondence(ctx):
             dis.append({"name": "L1:cases-file", "detail": out[-1500:]})
             continue
         for idx in lists[3]:
-            dis.append({"name": "L1:model-table-not-certified-or-states-not-typed-per-accelerator", "text": sh[idx][1]})
+            dis.append({"name": "L1:cert_side-fails(hypothesis of C07_model_inference_sound: well-threaded, typed per accelerator, unique state definitions, SSA scoping)", "text": sh[idx][1]})
         for idx in lists[0]:
             dis.append({"name": "L1:infer_state_of-vs-ainfer", "text": sh[idx][1]})
         for idx in lists[1]:
